@@ -10,6 +10,7 @@ From FB.Spec Require Import Prog.
 From FB.Model Require Import Types Monad Persist Build.
 From FB.Proofs Require Import CleanLaws.
 From FB.Proofs Require CacheGenLaws.   (* T1g: the model routines are equal to the translation of the source (Gen/CacheGen.v) *)
+From FB.Proofs Require DriverGenLaws.   (* T1g: _build, _roll_back, _commit, clean, _make_dirs, _make_room, FileBackups = Model/Build.v, Builder.v (Gen/DriverGen.v) *)
 Import ListNotations.
 
 Theorem C15_build_refused_no_effect : forall cf nm vers root w w' e,
